@@ -60,7 +60,7 @@ class FuncInfo:
 
 
 class Module:
-    def __init__(self, name, relpath, src):
+    def __init__(self, name, relpath, src, foreign=None):
         self.name = name  # e.g. 'classify'
         self.relpath = relpath  # e.g. 'spowtd/classify.py'
         self.src = src
@@ -70,7 +70,7 @@ class Module:
         except SyntaxError as exc:
             raise AnalysisError("cannot parse %s: %s" % (relpath, exc))
         from .normalize import normalize_module
-        self.normalized = normalize_module(self.tree, name)
+        self.normalized = normalize_module(self.tree, name, foreign)
         self.aliases = {}  # local name -> dotted target
         self.functions = {}  # qualname -> FuncInfo
         self.classes = {}  # name -> ClassDef
@@ -166,6 +166,21 @@ class Repo:
                 name = rel.split("/")[1][:-3]
                 if name not in self.modules:
                     self.modules[name] = Module(name, rel, src)
+        # helpers of other modules that the rules have never read are unfolded at their call sites too
+        from .normalize import foreign_helpers
+        fh = foreign_helpers(self.modules)
+        for mname, forms in fh.items():
+            m = self.modules[mname]
+            used = False
+            for c in ast.walk(m.tree):
+                if isinstance(c, ast.Call):
+                    f_ = c.func
+                    if (isinstance(f_, ast.Name) and ("name", f_.id) in forms) or \
+                            (isinstance(f_, ast.Attribute) and isinstance(f_.value, ast.Name) and ("attr", f_.value.id, f_.attr) in forms):
+                        used = True
+                        break
+            if used:
+                self.modules[mname] = Module(m.name, m.relpath, m.src, foreign=forms)
         from .normalize import positional_keywords
         self.keywords_made_positional = positional_keywords(self.modules)
 
